@@ -246,6 +246,10 @@ def run(chk):
     def fval(env):
         e2 = dict(env); e2['float_eps'] = 2.220446049250313e-16
         return X.float_eval(flux_full, e2).real
+    all_masks = []
+    for m_ in masks_in(flux_full):
+        if not any(m_ is q_ for q_ in all_masks): all_masks.append(m_)
+    nloc = [0]
     for _ in range(nprobe):
         env = {'delta_temp': 10 ** rng.uniform(-1, 3), 'viscosity': 10 ** rng.uniform(-4, 22), 'thermal_conductivity': rng.uniform(0.5, 6), 'thermal_diffusivity': 10 ** rng.uniform(-7, -5),
                'thermal_expansion': 10 ** rng.uniform(-5.5, -4), 'layer_thickness': 10 ** rng.uniform(2, 6.5), 'gravity': rng.uniform(0.1, 25), 'density': rng.uniform(900, 9000),
@@ -257,6 +261,25 @@ def run(chk):
                 cands += [(c_ * (1 - 1e-6), c_), (c_, c_ * (1 + 1e-6)), (c_ * rng.uniform(0.01, 0.99), c_ * rng.uniform(1.01, 100))]
             v0 = env[var]
             cands.append((v0, v0 * 10 ** rng.uniform(0.01, 3)))
+            # boundaries of the comparisons inside the formula along this variable (located by the change of their truth values, then bisected): pairs straddling them
+            if nloc[0] < (60 if chk.tier == 'quick' else 400):
+                nloc[0] += 1
+                lo_r, hi_r = ((-4, 22) if var == 'viscosity' else (-1, 3))
+                grid = [10 ** (lo_r + (hi_r - lo_r) * i_ / 36) for i_ in range(37)]
+                def mvec(x, env=env, var=var):
+                    e2 = dict(env, **{var: x}); e2['float_eps'] = 2.220446049250313e-16
+                    return tuple(bool(X.float_eval(m_, e2).real) for m_ in all_masks)
+                prev = mvec(grid[0])
+                for a_, b_ in zip(grid, grid[1:]):
+                    cur = mvec(b_)
+                    if cur != prev:
+                        lo_, hi_, ml = a_, b_, prev
+                        for _b in range(40):
+                            mid = (lo_ * hi_) ** 0.5
+                            if mvec(mid) == ml: lo_ = mid
+                            else: hi_ = mid
+                        cands.append((lo_ * (1 - 1e-9), hi_ * (1 + 1e-9)))
+                    prev = cur
             for lo, hi in cands:
                 if lo <= 0: continue
                 f_lo = fval(dict(env, **{var: lo})); f_hi = fval(dict(env, **{var: hi}))
@@ -265,7 +288,7 @@ def run(chk):
                     worst[var] = (lo, hi, f_lo, f_hi, env)
     for var, txt in (('viscosity', 'non-increasing in viscosity'), ('delta_temp', 'non-decreasing in the temperature contrast')):
         w_ = worst[var]
-        chk.ob('R19.4', f'convection: flux {txt} across region boundaries ({nprobe} input sets, pairs straddling each threshold)', w_ is None,
+        chk.ob('R19.4', f'convection: flux {txt} across region boundaries ({nprobe} input sets, pairs straddling each threshold and each located comparison boundary)', w_ is None,
                '' if w_ is None else f'{var} {w_[0]:.9g} -> {w_[1]:.9g} takes the flux {w_[2]:.6g} -> {w_[3]:.6g} W/m^2 at ' + ', '.join(f'{k}={v:.4g}' for k, v in w_[4].items() if k != var),
                wherec, method='float evaluation of the extracted formula (witness search)')
     off = it.call(mc, f_coff, [dT, L])
